@@ -94,7 +94,7 @@ SHAPES = shapes()
 CONSTS = {"D4": ["a"], "D1": ["a", "b"], "D2": ["k", "cap"], "D3": ["thr", "h"], "X1": ["rate"], "X2": ["frac", "base"]}
 CVALS = {"a": [0.1, 0.4], "b": [1.0, 3.5], "k": [0.1, 0.5], "cap": [20.0, 80.0], "thr": [0.6, 2.9], "h": [1.0, 5.0],
          "rate": [0.02, 0.1], "frac": [0.1, 0.5], "base": [0.0, 2.0]}
-KINDS = ["none", "const1", "const2", "points_all", "points_some", "const_points", "rs_start", "rs_stop", "rs_dt", "rs_all", "rs_zero"]
+KINDS = ["none", "const1", "const2", "points_all", "points_some", "const_points", "rs_start", "rs_stop", "rs_dt", "rs_all", "rs_zero", "const_numpy"]
 CHANNELS = ["dict", "base", "file1", "file2", "session", "rest"]
 
 
@@ -107,6 +107,11 @@ def overrides(shape, kind, draw):
         o["constants"] = {cs[0]: rng.choice(CVALS[cs[0]])}
     if kind == "const2":
         o["constants"] = {c: rng.choice(CVALS[c]) for c in cs}
+    if kind == "const_numpy":
+        # values as they come out of numpy / pandas (np.float64, np.int64) and as a numeric string
+        import numpy as np
+        wrap = [np.float64, lambda v: np.int64(round(v)) , lambda v: repr(float(v))]
+        o["constants"] = {c: wrap[(i + draw) % 3](rng.choice(CVALS[c])) for i, c in enumerate(cs)}
     pn = sorted(sp["points"])
     if kind in ("points_all", "const_points"):
         o["points"] = {p: copy.deepcopy(rng.choice(ALT_P1 if i == 0 else ALT_P2)) for i, p in enumerate(pn)}
@@ -141,6 +146,8 @@ def gen_cases(tier, seed):
             if kind == "points_some" and len(SHAPES[shape]["points"]) < 2:
                 continue
             for ch in CHANNELS:
+                if kind == "const_numpy" and ch in ("file1", "file2", "rest"):
+                    continue        # JSON cannot carry numpy scalars
                 for d in range(draws):
                     host = "object"
                     if SHAPES[shape]["build"] == "dsl" and ch in ("file1", "file2"):
@@ -159,7 +166,7 @@ def spec_with(shape, o):
     sp = copy.deepcopy({k: v for k, v in SHAPES[shape].items() if k not in ("xml", "build")})
     for e in sp["elements"]:
         if e["kind"] == "constant" and e["name"] in o.get("constants", {}):
-            e["value"] = o["constants"][e["name"]]
+            e["value"] = float(o["constants"][e["name"]])
     for p, pts in o.get("points", {}).items():
         sp["points"][p] = pts
     rs = o.get("runspecs", {})
